@@ -673,6 +673,43 @@ def r4(ctx: Ctx) -> None:
     ctx.ob("C13.R4", enc, "bool is tested before int, datetime before date", None, before("bool", "int") and before("datetime", "date"),
            f"isinstance chain: {chain} (bool is a subclass of int, datetime of date: the superclass test would capture them)",
            text="subclass-order")
+    # the decoded VALUE decides nothing by its truthiness: 0, 0.0, False and "" are bounds like any other (a falsy lower bound
+    # handed to the legacy inference comes back as raw JSON text, and every comparison with it prunes wrongly)
+    gd = ctx.cfg(dec)
+    vnames = set()
+    for n_ in gd.nodes:
+        if n_.kind == "stmt" and isinstance(n_.ast, ast.Assign):
+            tgs_, vals_ = [], []
+            if len(n_.ast.targets) == 1 and isinstance(n_.ast.targets[0], ast.Name):
+                tgs_, vals_ = [n_.ast.targets[0]], [n_.ast.value]
+            elif len(n_.ast.targets) == 1 and isinstance(n_.ast.targets[0], ast.Tuple) and isinstance(n_.ast.value, ast.Tuple) \
+                    and len(n_.ast.targets[0].elts) == len(n_.ast.value.elts):
+                tgs_, vals_ = list(n_.ast.targets[0].elts), list(n_.ast.value.elts)
+            for t_, v_ in zip(tgs_, vals_):
+                if not isinstance(t_, ast.Name):
+                    continue
+                is_v = (isinstance(v_, ast.Subscript) and isinstance(v_.slice, ast.Constant) and v_.slice.value == "v") or \
+                    (isinstance(v_, ast.Call) and isinstance(v_.func, ast.Attribute) and v_.func.attr == "get" and v_.args
+                     and isinstance(v_.args[0], ast.Constant) and v_.args[0].value == "v")
+                if is_v:
+                    vnames.add(t_.id)
+    truthy = []
+    for n_ in gd.nodes:
+        if n_.ast is None or n_.id not in gd.reachable() or n_.kind not in ("branch", "stmt", "return"):
+            continue
+        tests = [n_.ast] if n_.kind == "branch" else []
+        for x in ast.walk(n_.ast):
+            if isinstance(x, ast.BoolOp):
+                tests += x.values
+            elif isinstance(x, ast.UnaryOp) and isinstance(x.op, ast.Not):
+                tests.append(x.operand)
+            elif isinstance(x, ast.IfExp):
+                tests.append(x.test)
+        truthy += [(n_, t_) for t_ in tests if isinstance(t_, ast.Name) and t_.id in vnames]
+    ctx.ob("C13.R4", dec, "the decoded payload value is never truth-tested", truthy[0][0] if truthy else None, not truthy,
+           "presence of the 'v' key is what makes a payload tagged" if not truthy else
+           f"`{truthy[0][0].text[:60]}` tests the VALUE `{truthy[0][1].id}` for truth: a bound of 0 / 0.0 / False / '' is taken for a missing "
+           "payload and decoded by the lossy legacy inference", text="value-truth")
     g = ctx.cfg(dec)
     legacy = [n for n in g.calls() if any(t.name == "_infer_value_legacy" for t in ctx.eff.callees(dec, n))]
     dom = ctx.dom(dec, ALL)
@@ -772,10 +809,29 @@ def r5r6(ctx: Ctx) -> None:
         key = s.ast.targets[0].slice  # type: ignore[union-attr]
         ko = sl.origins(key, s.id)
         vo = sl.origins(s.ast.value, s.id)  # type: ignore[union-attr]
-        k_id = any(isinstance(c, ast.Call) and c.args and isinstance(c.args[0], ast.Constant) and c.args[0].value == "id" for c in ko["calls"])
-        v_name = any(isinstance(c, ast.Call) and c.args and isinstance(c.args[0], ast.Constant) and c.args[0].value == "name" for c in vo["calls"])
+        def _reads_key(org, what: str) -> bool:  # type: ignore[no-untyped-def]
+            """field.get("id") or field["id"] somewhere on the value's def-use chain"""
+            if any(isinstance(c, ast.Call) and c.args and isinstance(c.args[0], ast.Constant) and c.args[0].value == what for c in org["calls"]):
+                return True
+            return any(isinstance(x, ast.Subscript) and isinstance(x.slice, ast.Constant) and x.slice.value == what
+                       for e_ in org["exprs"] for x in ast.walk(e_))
+        k_id = _reads_key(ko, "id") or (isinstance(key, ast.Subscript) and isinstance(key.slice, ast.Constant) and key.slice.value == "id")
+        v_name = _reads_key(vo, "name")
+
+        def _over_fields(it: ast.AST, at: int, depth: int = 0) -> bool:
+            """the schema's field list itself, or a local built from it by a FILTERING comprehension (`[f for f in X.fields if ..]`)"""
+            if norm_text(it).endswith(".fields"):
+                return True
+            if isinstance(it, ast.Name) and depth < 3:
+                defs_ = ctx.rd(cb).reaching(at, it.id)
+                vals_ = [g.nodes[d_].ast.value for d_ in defs_ if d_ != g.entry and isinstance(g.nodes[d_].ast, ast.Assign)]
+                return bool(vals_) and len(vals_) == len(defs_) and all(
+                    isinstance(v_, (ast.ListComp, ast.GeneratorExp)) and len(v_.generators) == 1 and isinstance(v_.generators[0].target, ast.Name)
+                    and isinstance(v_.elt, ast.Name) and v_.elt.id == v_.generators[0].target.id
+                    and _over_fields(v_.generators[0].iter, at, depth + 1) for v_ in vals_)
+            return False
         loopvars = {l.ast.target.id for l in g.nodes if l.kind == "loop" and isinstance(l.ast, ast.For) and isinstance(l.ast.target, ast.Name)
-                    and norm_text(l.ast.iter).endswith(".fields")}
+                    and _over_fields(l.ast.iter, l.id)}
         same = bool({n for n in ko["names"]} & {n for n in vo["names"]} & loopvars)
         ctx.ob("C13.R5", cb, "bound stored under field_dict['id'] for the column field_dict['name']", s, k_id and v_name and same,
                "key and column come from the same schema field")
